@@ -900,6 +900,7 @@ func runC15(ctx *Ctx) {
 	}
 	runC15Inf(ctx)
 	runC15Conv(ctx)
+	runC15KeyCollisions(ctx)
 	// 3. documents, number parsing, NumOK
 	runC15Docs(ctx)
 	runC15Deep(ctx)
